@@ -322,6 +322,24 @@ class Engine:
             raise Unsupported('yield at module level')
         return mod
 
+    def run_script(self, path, name='__main__', g=None):
+        """Execute a source file as a script (module name ``name``)."""
+        with open(path) as f:
+            src = f.read()
+        mod = ModuleVal(name, path)
+        mod.source = src
+        mod.tree = ast.parse(src, path)
+        self.sources[os.path.relpath(path, self.repo)] = hashlib.sha256(
+            src.encode()).hexdigest()[:16]
+        mod.g['__file__'] = path
+        mod.g['__package__'] = ''
+        if g:
+            mod.g.update(g)
+        self._number_loops(mod)
+        for _ in self.exec_block(mod.tree.body, None, mod, None):
+            raise Unsupported('yield at module level')
+        return mod
+
     def _number_loops(self, mod):
         """Attach a key (function qualname, loop header text) to every loop
         for LoopSpec lookup; a repeated header gets '#2', '#3', ..."""
@@ -363,6 +381,8 @@ class Engine:
     def function(self, qualname):
         """Look up 'ddsmt.mod.func' or 'ddsmt.mod.Class.method'."""
         parts = qualname.split('.')
+        if os.path.exists(self.source_path(qualname)):
+            return self.load_module(qualname)
         for i in range(len(parts) - 1, 0, -1):
             modname = '.'.join(parts[:i])
             if os.path.exists(self.source_path(modname)):
